@@ -1553,29 +1553,127 @@ theorem eff_store {s s' : St} (h : Inv s) {v L C : Nat} (X : Excl s v L C) {data
     rw [List.take_take]; congr 1; omega
   rw [t2, t, List.take_left' rfl]
 
+/-! #### both `vsnprintf` attempts -/
+
+theorem vsnStore_fits {m : List Byte} {size : Nat} {out : List Nat} (h : out.length < size) :
+    vsnStore m size out = wr m 0 (out.map some ++ [some 0]) := by
+  have h0 : size ≠ 0 := by omega
+  simp only [vsnStore, h0, if_false]
+  rw [List.take_of_length_le (by omega)]
+
+theorem vsnStore_length {m m' : List Byte} {size : Nat} {out : List Nat} (h : vsnStore m size out = some m') :
+    m'.length = m.length := by
+  unfold vsnStore at h
+  split at h
+  · injection h with h; rw [h]
+  · exact wr_length h
+
+theorem upd_upd {α : Type} (f : Nat → α) (i : Nat) (x y : α) : upd (upd f i x) i y = upd f i y := by
+  funext j; unfold upd; split <;> rfl
+
+/-- `detach(0, k)` on a block whose chars were scribbled over while `data->len` stayed 0 (the state the first,
+    failed `vsnprintf` attempt of `printf` leaves behind): the invariant is restored, the value is empty -/
+theorem eff_detach_dirty {s s2 : St} (h : Inv s) {v bk : Nat} {blk : Block} (hv : v < s.n)
+    (hloc : s.vars v = .blk bk) (hb : s.heap bk = some blk) (r1 : blk.ref = 1) {m1 : List Byte}
+    (hl : m1.length = blk.bytes.length) {k : Nat}
+    (e : detach { s with heap := upd s.heap bk (some { blk with bytes := m1, len := 0 }) } v 0 k = some s2) :
+    Eff s s2 v [] ∧ Excl s2 v 0 k := by
+  have W := h.wf bk blk hb
+  have hd : desc { s with heap := upd s.heap bk (some { blk with bytes := m1, len := 0 }) } v
+      = some ⟨.blk bk, 0, 0, blk.cap, 1⟩ := by
+    simp [desc, hloc, upd_same, r1]
+  obtain ⟨d, hd, hdb, hdo, hdl, hdc, hdr⟩ : ∃ d, desc { s with heap := upd s.heap bk (some { blk with bytes := m1, len := 0 }) } v
+      = some d ∧ d.base = .blk bk ∧ d.off = 0 ∧ d.len = 0 ∧ d.cap = blk.cap ∧ d.ref = 1 := ⟨_, hd, rfl, rfl, rfl, rfl, rfl⟩
+  simp only [detach, hd, Option.bind_eq_bind, Option.bind_some] at e
+  by_cases fast : d.ref = 1 ∧ k ≤ d.cap
+  · simp only [fast, and_self, if_true, hdb, hdl, memOf, upd_same, Option.map_some, Option.bind_some] at e
+    have fast : k ≤ blk.cap := hdc ▸ fast.2
+    have hp : poison m1 0 0 = m1 := by simp [poison]
+    rw [hp] at e
+    cases hm2 : wr m1 0 [some 0] with
+    | none => simp [hm2] at e
+    | some m2 =>
+      simp only [hm2, Option.bind_some] at e
+      have e' : writeOwn s v m2 0 = some s2 := by
+        rw [← e]
+        simp only [writeOwn, hloc, hb, upd_same, r1, if_true, upd_upd]
+      have hl2 : m2.length = blk.cap + 1 := by rw [wr_length hm2, hl, W.1]
+      have inv' := inv_writeOwn h e' (by
+        intro b' blk' hv' hb'
+        rw [hloc] at hv'; injection hv' with hv'; subst hv'
+        rw [hb] at hb'; injection hb' with hb'; subst hb'
+        exact ⟨hl2, Nat.zero_le _, wr_get hm2⟩)
+      have F := writeOwn_fields e'
+      refine ⟨⟨inv', F.1, F.2.1, ?_, fun w hw => abs_writeOwn_other h e' hw⟩, ?_⟩
+      · rw [abs_writeOwn_self e']; rfl
+      · obtain ⟨b', blk', hv', hb', _, rfl⟩ := writeOwn_eq e'
+        rw [hloc] at hv'; injection hv' with hv'; subst hv'
+        rw [hb] at hb'; injection hb' with hb'; subst hb'
+        exact ⟨bk, { blk with bytes := m2, len := 0 }, hloc, by simp [upd_same], r1, rfl, fast⟩
+  · simp only [fast, if_false, hdb, hdl, hdo, Nat.lt_irrefl, rdRange, memOf, upd_same, Option.map_some, Option.bind_eq_bind,
+      Option.bind_some, Nat.add_zero] at e
+    have hr : rdList m1 0 0 = some [] := by simp [rdList]
+    rw [hr] at e
+    simp only [Option.bind_some] at e
+    cases hm3 : wr (fresh (capRule k + 1)) 0 [] with
+    | none => simp [hm3] at e
+    | some m3 =>
+      simp only [hm3, Option.bind_some] at e
+      cases hm4 : wr m3 0 [some 0] with
+      | none => simp [hm4] at e
+      | some m4 =>
+        simp only [hm4, Option.bind_some, Option.pure_def, Option.some.injEq] at e
+        have hrel : release { s with heap := upd s.heap bk (some { blk with bytes := m1, len := 0 }) } v = release s v := by
+          simp only [release, hloc, hb, upd_same, r1, if_true, upd_upd]
+        have e' : allocSet s v m4 0 (capRule k) = s2 := by
+          rw [← e]
+          simp only [allocSet, setEmpty, hrel]
+        subst e'
+        have hl3 : m3.length = capRule k + 1 := by rw [wr_length hm3, length_fresh]
+        have hl4 : m4.length = capRule k + 1 := by rw [wr_length hm4, hl3]
+        refine ⟨⟨inv_allocSet h hv hl4 (Nat.zero_le _) (wr_get hm4), (allocSet_fields ..).1, (allocSet_fields ..).2, ?_,
+          fun w hw => abs_allocSet_other h hv _ _ _ hw⟩, ?_⟩
+        · rw [abs_allocSet_self]; rfl
+        · exact ⟨(setEmpty s v).next, ⟨m4, 0, capRule k, 1⟩, by simp [allocSet], by simp [allocSet], rfl, rfl, le_capRule k⟩
+
+/-- the two attempts on the exclusively owned, empty block `detach(0, …)` / `String(capacity)` left -/
+theorem eff_printfTail {s s' : St} (h : Inv s) {v : Nat} (hv : v < s.n) {C : Nat} (X : Excl s v 0 C) {out : List Nat}
+    {r : Nat} (e : printfTail s v out = some (s', r)) : Eff s s' v (out.map some) ∧ r = out.length := by
+  obtain ⟨bk, blk, hloc, hb, r1, hl0, hC⟩ := X
+  have W := h.wf bk blk hb
+  have X : Excl s v 0 C := ⟨bk, blk, hloc, hb, r1, hl0, hC⟩
+  simp only [printfTail, desc_blk hloc hb, memOf, hb, Option.bind_eq_bind, Option.bind_some, Option.map_some,
+    Option.bind_eq_some_iff] at e
+  obtain ⟨m1, hm1, e⟩ := e
+  by_cases c : out.length < blk.cap
+  · simp only [c, if_true, Option.bind_eq_some_iff, Option.pure_def, Option.some.injEq, Prod.mk.injEq] at e
+    obtain ⟨s2, h2, rfl, rfl⟩ := e
+    rw [vsnStore_fits c] at hm1
+    have hl : out.length = (out.map some).length := by simp
+    rw [hl] at h2
+    exact ⟨eff_store h X (data := out.map some) (by
+      simp only [desc_blk hloc hb, memOf, hb, Option.bind_eq_bind, Option.bind_some, Option.map_some, hm1]
+      exact h2), rfl⟩
+  · simp only [c, if_false, Option.bind_eq_some_iff, Option.pure_def, Option.some.injEq, Prod.mk.injEq] at e
+    obtain ⟨s1, h1, s2, h2, d2, hd2, mm2, hmm2, m', hm', s3, h3, rfl, rfl⟩ := e
+    obtain ⟨b', blk', hv', hb', _, rfl⟩ := writeOwn_eq h1
+    rw [hloc] at hv'; injection hv' with hv'; subst hv'
+    rw [hb] at hb'; injection hb' with hb'; subst hb'
+    rw [hl0] at h2
+    obtain ⟨E2, X2⟩ := eff_detach_dirty h hv hloc hb r1 (vsnStore_length hm1) h2
+    rw [vsnStore_fits (Nat.lt_succ_self _)] at hm'
+    have hl : out.length = (out.map some).length := by simp
+    rw [hl] at h3
+    have E3 := eff_store E2.inv X2 (data := out.map some) (by
+      have hmm2' : memOf s2 d2.base = some mm2 := hmm2
+      simp only [hd2, hmm2', hm', Option.bind_eq_bind, Option.bind_some]; exact h3)
+    exact ⟨E2.trans E3, rfl⟩
+
 theorem eff_printf {s s' : St} (h : Inv s) {v : Nat} (hv : v < s.n) {f : List Fmt} {r : Nat}
     (e : printf s v f = some (s', r)) : Eff s s' v ((render f).map some) := by
   simp only [printf, Option.bind_eq_bind, Option.bind_eq_some_iff] at e
-  obtain ⟨s1, h1, d, hd, mm, hmm, e⟩ := e
+  obtain ⟨s1, h1, e⟩ := e
   obtain ⟨E1, X1⟩ := eff_detach h hv h1
-  by_cases c : (render f).length < d.cap
-  · simp only [c, if_true, Option.bind_eq_some_iff, Option.pure_def, Option.some.injEq, Prod.mk.injEq] at e
-    obtain ⟨m', hm', s2, h2, e, _⟩ := e
-    subst e
-    have hl : (render f).length = ((render f).map some).length := by simp
-    rw [hl] at h2
-    have E2 := eff_store E1.inv X1 (data := (render f).map some) (by
-      simp only [hd, hmm, hm', Option.bind_eq_bind, Option.bind_some]; exact h2)
-    exact E1.trans E2
-  · simp only [c, if_false, Option.bind_eq_some_iff, Option.pure_def, Option.some.injEq, Prod.mk.injEq] at e
-    obtain ⟨s2, h2, d2, hd2, mm2, hmm2, m', hm', s3, h3, e, _⟩ := e
-    subst e
-    have hv1 : v < s1.n := by rw [E1.n]; exact hv
-    obtain ⟨E2, X2⟩ := eff_detach E1.inv hv1 h2
-    have hl : (render f).length = ((render f).map some).length := by simp
-    rw [hl] at h3
-    have E3 := eff_store E2.inv X2 (data := (render f).map some) (by
-      simp only [hd2, hmm2, hm', Option.bind_eq_bind, Option.bind_some]; exact h3)
-    exact (E1.trans E2).trans E3
+  exact E1.trans (eff_printfTail E1.inv (by rw [E1.n]; exact hv) X1 e).1
 
 end Nstd.Str
